@@ -14,7 +14,15 @@
      (NOTE: [cfg_params (cfg_insn h)] is NOT [[]]: an instruction body is compiled with the parameters
       pkt / hi / bundle.  tlower_correct wants [cfg_params cfg = []], hence the comparison is made against
       the configuration with the parameter list emptied; a behaviour that mentions one of these three
-      names is translated differently by the two and is reported as not covered.) *)
+      names is translated differently by the two and is reported as not covered.)
+     [covered_correct] returns the effect, the final hybrid counter h' (h <= h': one temporary h_tmp<n> per for loop)
+     and the declared / valued locals D', V' the behaviour ends with.
+   - [im_ok_b prog] decides StmtCorrect.im_ok for the immediate letters of the behaviour (none is named jump_flag,
+     jump_target or h_tmp...).
+   - Section 6 (CheckExamples) has, for every constructor of the fragments, a shipped-style behaviour shown covered
+     by vm_compute, the effect the real configuration emits for it, and executed runs (loads, macros, aliases,
+     jumps, for loops); and the behaviours found NOT covered (defect D3: sextract64 of a signed 32 bit argument;
+     write to the PC alias; nested loops; loop variables that are not 32 bits wide; division ...). *)
 From Coq Require Import ZArith NArith List Bool String Ascii Lia.
 From RZ.lib Require Import BV PyHeap.
 From RZ.sem Require Import RzIL CSem.
@@ -80,6 +88,7 @@ Definition demand_of (o : operand) : list (regop * N) :=
       | None => []
       end
   | OAlias name new => [(alias_op name new, alias_w name)]
+  | OExplicit name new => [(expl_op name new, expl_w name)]
   | _ => []
   end.
 Definition demands (prog : cstmts) : list (regop * N) := flat_map demand_of (ops_ss prog).
@@ -119,7 +128,7 @@ Proof.
 Qed.
 
 Definition reserved_b (IM : string -> bool) (x : string) : bool :=
-  (String.eqb x "jump_flag" || String.eqb x "jump_target" || IM x || imm_cname x)%bool.
+  (String.eqb x "jump_flag" || String.eqb x "jump_target" || IM x || imm_cname x || is_htmp x)%bool.
 Lemma reserved_b_iff IM x : reserved_b IM x = true <-> reserved IM x.
 Proof.
   unfold reserved_b, reserved. rewrite !orb_true_iff, !String.eqb_eq. tauto.
@@ -127,9 +136,11 @@ Qed.
 Lemma reserved_b_false IM x : reserved_b IM x = false <-> ~ reserved IM x.
 Proof. rewrite <- reserved_b_iff. destruct (reserved_b IM x); split; intros H; congruence. Qed.
 
-Definition im_ok_b (IM : string -> bool) : bool := (negb (IM "jump_flag") && negb (IM "jump_target"))%bool.
-Lemma im_ok_b_iff IM : im_ok_b IM = true <-> im_ok IM.
-Proof. unfold im_ok_b, im_ok. rewrite andb_true_iff, !negb_true_iff. tauto. Qed.
+(* the immediate letters of a behaviour are not the names of JUMP's locals nor of the compiler's temporaries h_tmp<n>
+   (decided on the list of letters: StmtCorrect.im_ok_l) *)
+Definition im_ok_b (prog : cstmts) : bool := im_ok_l (imms_of prog).
+Lemma im_ok_b_iff prog : im_ok_b prog = true <-> im_ok (IM_of prog).
+Proof. apply im_ok_l_iff. Qed.
 
 Definition cast_ty_of (ts : tyspec) : option (bool * N) :=
   match ts with
@@ -240,6 +251,20 @@ Proof.
   rewrite vtype_seqb_refl. apply okw_b_iff in Hw. rewrite Hw. reflexivity.
 Qed.
 
+(* a 32 bit local with a value (the variable of a for loop) *)
+Definition int32var_b (V : list (string * option vtype)) (x : string) : bool :=
+  match lookup x V with
+  | Some (Some t) => vtype_seqb t (ty_int (vt_sg t) 32)
+  | _ => false
+  end.
+Lemma int32var_b_sound V x : int32var_b V x = true -> exists sg, lookup x V = Some (Some (ty_int sg 32)).
+Proof.
+  unfold int32var_b. destruct (lookup x V) as [[t|]|]; try discriminate. intros H.
+  apply vtype_seqb_sound in H. exists (vt_sg t). rewrite <- H. reflexivity.
+Qed.
+Lemma int32var_b_complete V x sg : lookup x V = Some (Some (ty_int sg 32)) -> int32var_b V x = true.
+Proof. intros Hl. unfold int32var_b. rewrite Hl. cbn [ty_int vt_sg]. fold (ty_int sg 32). apply vtype_seqb_refl. Qed.
+
 Definition unop_ok (u : Ast.unop) : bool := match u with UNot | UMinus | ULNot => true | _ => false end.
 Lemma unop_ok_iff u : unop_ok u = true <-> (u = UNot \/ u = UMinus \/ u = ULNot).
 Proof. destruct u; cbn [unop_ok]; intuition discriminate. Qed.
@@ -251,8 +276,8 @@ Proof.
     intuition discriminate.
 Qed.
 
-Definition casg_ok (a : asgop) : bool := match a with AAdd | ASub | AMul | AAnd | AOr | AXor => true | _ => false end.
-Lemma casg_ok_iff a : casg_ok a = true <-> ((a = AAdd \/ a = ASub \/ a = AMul) \/ (a = AAnd \/ a = AOr \/ a = AXor)).
+Definition casg_ok (a : asgop) : bool := match a with AAdd | ASub | AMul | AAnd | AOr | AXor | AShl | AShr => true | _ => false end.
+Lemma casg_ok_iff a : casg_ok a = true <-> ((a = AAdd \/ a = ASub \/ a = AMul) \/ (a = AAnd \/ a = AOr \/ a = AXor) \/ (a = AShl \/ a = AShr)).
 Proof. destruct a; cbn [casg_ok]; intuition discriminate. Qed.
 
 Definition alias_b (rw : regwidth) (name : string) (new : bool) : bool :=
@@ -264,12 +289,21 @@ Proof.
   - intros [Hin Hw]. split; [|exact Hw]. exists name. split; [exact Hin | apply String.eqb_refl].
 Qed.
 
+Definition expl_b (rw : regwidth) (name : string) (new : bool) : bool :=
+  (existsb (String.eqb name) expl_names && N.eqb (rw (expl_op name new)) (expl_w name))%bool.
+Lemma expl_b_iff rw name new : expl_b rw name new = true <-> In name expl_names /\ rw (expl_op name new) = expl_w name.
+Proof.
+  unfold expl_b. rewrite andb_true_iff, N.eqb_eq, existsb_exists. split.
+  - intros [[y [Hy He]] Hw]. apply String.eqb_eq in He. subst y. auto.
+  - intros [Hin Hw]. split; [|exact Hw]. exists name. split; [exact Hin | apply String.eqb_refl].
+Qed.
+
 Definition implicit_b (x : string) : bool := existsb (String.eqb x) ["EA"; "i"; "j"; "k"].
 Lemma implicit_b_iff x : implicit_b x = true <-> implicit_name x.
 Proof. unfold implicit_b, implicit_name. cbn [existsb]. rewrite !orb_true_iff, !String.eqb_eq. intuition discriminate. Qed.
 
 Definition raw_name_b (IM : string -> bool) (V : list (string * option vtype)) (x : string) : bool :=
-  (match lookup x V with None => true | Some _ => false end && negb (IM x) && negb (implicit_b x))%bool.
+  (match lookup x V with None => true | Some _ => false end && negb (IM x) && negb (implicit_b x) && negb (is_htmp x))%bool.
 Lemma raw_name_b_iff IM V x : raw_name_b IM V x = true <-> raw_name IM V x.
 Proof.
   unfold raw_name_b, raw_name. rewrite !andb_true_iff, !negb_true_iff. rewrite <- implicit_b_iff.
@@ -328,6 +362,7 @@ Section Check.
     | EOp (ONewReg cls letters) => (reg_cls_b true cls && newregw_b rw cls letters)%bool
     | EOp (OImm l) => IM l
     | EOp (OAlias name new) => (alias_b rw name new || (String.eqb name "PC" && negb new))%bool
+    | EOp (OExplicit name new) => expl_b rw name new
     | ECast ts a =>
         (match cast_ty_of ts with Some _ => true | None => false end &&
          (pfrag_check V a ||
@@ -360,6 +395,8 @@ Section Check.
         then Some (D, V) else None
     | SExpr (EAssign a (EOp (OAlias name new)) e) =>
         if ((match a with AAssign => true | _ => false end) && alias_b rw name new && pfrag_check V e)%bool then Some (D, V) else None
+    | SExpr (EAssign a (EOp (OExplicit name new)) e) =>
+        if ((match a with AAssign => true | _ => false end) && expl_b rw name new && pfrag_check V e)%bool then Some (D, V) else None
     | SExpr (EAssign a (EOp (OImm l)) e) =>
         if ((match a with AAssign => true | _ => false end) && IM l && pfrag_check V e)%bool then Some (D, V) else None
     | SExpr (EAssign a (EOp (OIdent x)) e) =>
@@ -411,6 +448,21 @@ Section Check.
           | _, _ => None
           end
         else None
+    | SFor i (SExpr c) (Some (EPost inc (EOp (OIdent x)))) b =>      (* for (i = e; c; i++) body *)
+        match i with
+        | SExpr _ =>
+            match sfrag_check D V i with
+            | Some (D1, V1) =>
+                if (pfrag_check V1 c && int32var_b V1 x && noloop b)%bool then
+                  match sfrag_check D1 V1 b with
+                  | Some (D2, V2) => if (venv_eqb D2 D1 && venv_eqb V2 V1)%bool then Some (D1, V1) else None
+                  | None => None
+                  end
+                else None
+            | None => None
+            end
+        | _ => None
+        end
     | _ => None
     end
   with sfrags_check (D V : list (string * option vtype)) (l : cstmts) {struct l}
@@ -427,11 +479,12 @@ Section Check.
     destruct e as [o | t e | u e | b e1 e2 | e1 e2 e3 | a l r | inc e | f args | m args | sg w args | items last
                    | l r | a i | a f | a f | a | t | what]; cbn [pfrag_check]; try discriminate.
     - (* operands *)
-      destruct o as [cls letters | cls letters | | name new | l | v hex suf | x | |]; try discriminate.
+      destruct o as [cls letters | cls letters | name new | name new | l | v hex suf | x | |]; try discriminate.
       + intros H. apply andb2 in H. destruct H as [H H0]. apply dest_cls_b_iff in H. apply regw_b_iff in H0. destruct H0 as [acc [Ha Hw]].
         exact (pf_reg rw IM V cls letters acc H Ha Hw).
       + intros H. apply andb2 in H. destruct H as [H H0]. apply reg_cls_b_iff in H. apply newregw_b_iff in H0. destruct H0 as [acc [Ha Hw]].
         exact (pf_newreg rw IM V cls letters acc H Ha Hw).
+      + intros H. apply expl_b_iff in H. destruct H as [H H0]. exact (pf_expl rw IM V name new H H0).
       + intros H. apply orb_true_iff in H. destruct H as [H | H].
         * apply alias_b_iff in H. destruct H as [H H0]. exact (pf_alias rw IM V name new H H0).
         * apply andb2 in H. destruct H as [H H0]. apply String.eqb_eq in H. apply negb_true_iff in H0. subst name new. exact (pf_pc rw IM V).
@@ -470,7 +523,7 @@ Section Check.
   Proof.
     intros V e H.
     induction H as [x sg w Hl Hw | v hex suf t Hv Hl | cls letters acc Hc Ha Hw | cls letters acc Hc Ha Hw | l Hl
-                   | name new Hin Hw |
+                   | name new Hin Hw | name new Hin Hw |
                    | ts sg w e Hts _ IH | u e Hu _ IH | b l r Hb _ IHl _ IHr | c t f _ IHc _ IHt _ IHf Hlit
                    | e _ IH
                    | ts sg w lsg lw a Hts Hlw _ IH | m x Hm _ IHx | m x s l Hm _ IHx _ IHs _ IHl
@@ -482,6 +535,7 @@ Section Check.
     - apply reg_cls_b_iff in Hc. rewrite Hc. apply (proj2 (newregw_b_iff rw cls letters)). eauto.
     - exact Hl.
     - apply orb_true_iff. left. apply alias_b_iff. auto.
+    - apply expl_b_iff. auto.
     - apply orb_true_r.
     - apply cast_ty_of_iff in Hts. rewrite Hts, IH. reflexivity.
     - apply unop_ok_iff in Hu. rewrite Hu, IH. reflexivity.
@@ -523,7 +577,11 @@ Section Check.
         intros H. injection H as <- <-. apply andb3 in Ec. destruct Ec as [Hf [Ha Hb]]. apply String.eqb_eq in Hf. subst f.
         exact (sf_ssc rw IM D V a b (carg_b_sound D V a Ha) (carg_b_sound D V b Hb)). }
     destruct l as [o| | | | | | | | | | | | | | | | |]; try discriminate.
-    destruct o as [cls letters | | | name new | l0 | | x | |]; try discriminate.
+    destruct o as [cls letters | | xname xnew | name new | l0 | | x | |]; try discriminate.
+    2:{ match goal with |- (if ?c then _ else _) = _ -> _ => destruct c eqn:Ec end; [|discriminate].
+        intros H. injection H as <- <-. apply andb3 in Ec. destruct Ec as [Ha [Hal He]].
+        destruct a; try discriminate Ha. apply expl_b_iff in Hal. destruct Hal as [Hin Hw]. apply pfrag_check_sound in He.
+        exact (sf_asg_expl rw IM D V xname xnew r Hin Hw He). }
     3:{ match goal with |- (if ?c then _ else _) = _ -> _ => destruct c eqn:Ec end; [|discriminate].
         intros H. injection H as <- <-. apply andb3 in Ec. destruct Ec as [Ha [Hl He]].
         destruct a; try discriminate Ha. apply pfrag_check_sound in He.
@@ -535,14 +593,16 @@ Section Check.
     - match goal with |- (if ?c then _ else _) = _ -> _ => destruct c eqn:Ec end; [|discriminate].
       intros H. injection H as <- <-. apply andb4 in Ec. destruct Ec as [H [H1 [H0 Ec]]].
       apply dest_cls_b_iff in H1. apply regw_b_iff in H0. destruct H0 as [acc [Ha Hw]]. apply pfrag_check_sound in Ec.
-      destruct a; try (apply casg_ok_iff in H; destruct H as [H | H];
-                       [exact (sf_casg_reg rw IM D V _ cls letters acc r H H1 Ha Hw Ec) | exact (sf_basg_reg rw IM D V _ cls letters acc r H H1 Ha Hw Ec)]).
+      destruct a; try (apply casg_ok_iff in H; destruct H as [H | [H | H]];
+                       [exact (sf_casg_reg rw IM D V _ cls letters acc r H H1 Ha Hw Ec) | exact (sf_basg_reg rw IM D V _ cls letters acc r H H1 Ha Hw Ec)
+                        | exact (sf_sasg_reg rw IM D V _ cls letters acc r H H1 Ha Hw Ec)]).
       exact (sf_asg_reg rw IM D V cls letters acc r H1 Ha Hw Ec).
     - match goal with |- (if ?c then _ else _) = _ -> _ => destruct c eqn:Ec end.
       + intros H. injection H as <- <-. apply andb3 in Ec. destruct Ec as [H [H0 Ec]].
         destruct (intvar_b_sound V x H0) as [sg [w [Hl Hw]]]. apply pfrag_check_sound in Ec.
-        destruct a; try (apply casg_ok_iff in H; destruct H as [H | H];
-                         [exact (sf_casg_var rw IM D V _ x sg w r H Hl Hw Ec) | exact (sf_basg_var rw IM D V _ x sg w r H Hl Hw Ec)]).
+        destruct a; try (apply casg_ok_iff in H; destruct H as [H | [H | H]];
+                         [exact (sf_casg_var rw IM D V _ x sg w r H Hl Hw Ec) | exact (sf_basg_var rw IM D V _ x sg w r H Hl Hw Ec)
+                          | exact (sf_sasg_var rw IM D V _ x sg w r H Hl Hw Ec)]).
         exact (sf_asg_var rw IM D V x sg w r Hl Hw Ec).
       + clear Ec. match goal with |- (if ?c then _ else _) = _ -> _ => destruct c eqn:Ec end; [|discriminate].
         apply andb3 in Ec. destruct Ec as [Ha [Hv He]]. destruct a; try discriminate Ha. apply fresh_b_iff in Hv. apply pfrag_check_sound in He.
@@ -592,6 +652,20 @@ Section Check.
           destruct (venv_eqb D1 D && venv_eqb V1 V)%bool eqn:Ev; [|discriminate H]. injection H as <- <-.
           apply andb2 in Ev. destruct Ev as [H H0]. apply venv_eqb_sound in H, H0. subst D1 V1.
           exact (sf_if rw IM D V c t Ec (sfrag_check_sound_s t D V D V Et)).
+      + (* SFor *)
+        intros D V D' V' H. cbn [sfrag_check] in H.
+        destruct c as [c |  |  |  |  |  |  |  |  |  |  |  |  |  |  |  |  |  |  | ]; try discriminate H.
+        destruct st as [[ |  |  |  |  |  | inc [[ |  |  |  |  |  | x |  | ] |  |  |  |  |  |  |  |  |  |  |  |  |  |  |  |  | ] |  |  |  |  |  |  |  |  |  |  | ] | ]; try discriminate H.
+        destruct i as [e0 |  |  |  |  |  |  |  |  |  |  |  |  |  |  |  |  |  |  | ] eqn:Ei; try discriminate H. rewrite <- Ei in *.
+        destruct (sfrag_check D V i) as [[D1 V1]|] eqn:E0; [|discriminate H].
+        match type of H with (if ?cnd then _ else _) = _ => destruct cnd eqn:Ec end; [|discriminate H].
+        destruct (sfrag_check D1 V1 b) as [[D2 V2]|] eqn:Eb; [|discriminate H].
+        destruct (venv_eqb D2 D1 && venv_eqb V2 V1)%bool eqn:Ev; [|discriminate H]. injection H as <- <-.
+        apply andb2 in Ev. destruct Ev as [H H0]. apply venv_eqb_sound in H, H0. subst D2 V2.
+        apply andb3 in Ec. destruct Ec as [Hc [Hx Hn]]. apply pfrag_check_sound in Hc.
+        destruct (int32var_b_sound V1 x Hx) as [sg Hl].
+        pose proof (sfrag_check_sound_s i D V D1 V1 E0) as Hi. rewrite Ei in Hi |- *.
+        exact (sf_for rw IM D V e0 D1 V1 c inc x sg b Hi Hc Hl (sfrag_check_sound_s b D1 V1 D1 V1 Eb) Hn).
       + (* SBlock *) intros D V D' V' H. cbn [sfrag_check] in H. apply sf_block. exact (sfrag_check_sound_ss l D V D' V' H).
       + (* SStore *)
         intros D V D' V' H. cbn [sfrag_check] in H.
@@ -627,6 +701,8 @@ Proof.
       (pfrag_check_complete rw IM V e He). reflexivity.
   - intros D V name new e Hin Hw He. cbn [sfrag_check].
     rewrite (proj2 (alias_b_iff rw name new) (conj Hin Hw)), (pfrag_check_complete rw IM V e He). reflexivity.
+  - intros D V name new e Hin Hw He. cbn [sfrag_check].
+    rewrite (proj2 (expl_b_iff rw name new) (conj Hin Hw)), (pfrag_check_complete rw IM V e He). reflexivity.
   - intros D V l e Hl He. cbn [sfrag_check]. rewrite Hl, (pfrag_check_complete rw IM V e He). reflexivity.
   - intros D V x sg w e Hl Hw He. cbn [sfrag_check].
     rewrite (intvar_b_complete V x sg w Hl Hw), (pfrag_check_complete rw IM V e He). reflexivity.
@@ -654,6 +730,13 @@ Proof.
     rewrite (proj2 (dest_cls_b_iff cls) Hc), (proj2 (regw_b_iff rw cls letters) (ex_intro _ acc (conj Hacc Hw))),
       (pfrag_check_complete rw IM V e He).
     destruct Ha as [-> | [-> | ->]]; reflexivity.
+  - intros D V a x sg w e Ha Hl Hw He. cbn [sfrag_check].
+    rewrite (intvar_b_complete V x sg w Hl Hw), (pfrag_check_complete rw IM V e He).
+    destruct Ha as [-> | ->]; reflexivity.
+  - intros D V a cls letters acc e Ha Hc Hacc Hw He. cbn [sfrag_check].
+    rewrite (proj2 (dest_cls_b_iff cls) Hc), (proj2 (regw_b_iff rw cls letters) (ex_intro _ acc (conj Hacc Hw))),
+      (pfrag_check_complete rw IM V e He).
+    destruct Ha as [-> | ->]; reflexivity.
   - intros D V ts sg w x e Hd Hl Hr He. cbn [sfrag_check].
     rewrite (proj2 (decl_ty_of_iff ts sg w) Hd), (proj2 (fresh_b_iff D x) Hl), (proj2 (reserved_b_false IM x) Hr), (pfrag_check_complete rw IM V e He).
     reflexivity.
@@ -670,6 +753,19 @@ Proof.
   - intros D V c t Hc _ IHt. cbn [sfrag_check]. rewrite (pfrag_check_complete rw IM V c Hc), IHt, !venv_eqb_refl. reflexivity.
   - intros D V c t f V1 Hc _ IHt _ IHf. cbn [sfrag_check].
     rewrite (pfrag_check_complete rw IM V c Hc), IHt, IHf, !venv_eqb_refl. reflexivity.
+  - intros D V e0 D1 V1 c inc i sg b _ IH0 Hc Hi _ IHb Hn.
+    change (sfrag_check rw IM D V (SFor (SExpr e0) (SExpr c) (Some (EPost inc (EOp (OIdent i)))) b))
+      with (match sfrag_check rw IM D V (SExpr e0) with
+            | Some (D1, V1) =>
+                if (pfrag_check rw IM V1 c && int32var_b V1 i && noloop b)%bool then
+                  match sfrag_check rw IM D1 V1 b with
+                  | Some (D2, V2) => if (venv_eqb D2 D1 && venv_eqb V2 V1)%bool then Some (D1, V1) else None
+                  | None => None
+                  end
+                else None
+            | None => None
+            end).
+    rewrite IH0, (pfrag_check_complete rw IM V1 c Hc), (int32var_b_complete V1 i sg Hi), Hn, IHb, !venv_eqb_refl. reflexivity.
   - reflexivity.
   - intros D V s D1 V1 l D2 V2 _ IHs _ IHl.
     change (sfrags_check rw IM D V (SCons s l))
@@ -869,14 +965,14 @@ Lemma cfg_thm_hstart h : cfg_hstart (cfg_thm h) = h. Proof. reflexivity. Qed.
 Lemma cfg_insn_params h : map fst (cfg_params (cfg_insn h)) = ["pkt"; "hi"; "bundle"]. Proof. reflexivity. Qed.
 
 Definition covered (h : N) (prog : cstmts) : bool :=
-  im_ok_b (IM_of prog) &&
+  im_ok_b prog &&
   (match sfrags_check (rw_of_prog prog) (IM_of prog) [] [] prog with Some _ => true | None => false end) &&
   tinfo_res_eqb (tlower_info (cfg_insn h) prog) (tlower_info (cfg_thm h) prog).
 
 (* D' = the locals the behaviour declares, V' = those of them it has given a value *)
 Theorem covered_correct : forall h prog, covered h prog = true ->
-  exists eff D' V', tlower_info (cfg_insn h) prog = OK (mkti eff h 0 false []) /\
-    forall ilsubs E csub xi cs ms fuel cs', csub_ext csub ->
+  exists eff h' D' V', tlower_info (cfg_insn h) prog = OK (mkti eff h' 0 false []) /\ (h <= h')%N /\
+    forall ilsubs E csub xi cs ms fuel cs', csub_ext csub -> xi_ok xi ->
       srel (IM_of prog) E [] [] cs ms -> imm_fresh (IM_of prog) cs -> cexecs E csub xi fuel cs prog = Some cs' ->
       exists ms', runs (rw_of_prog prog) ilsubs eff ms ms' /\ srel (IM_of prog) E D' V' cs' ms'.
 Proof.
@@ -885,21 +981,21 @@ Proof.
   destruct (sfrags_check (rw_of_prog prog) (IM_of prog) [] [] prog) as [[D' V']|] eqn:Ec; [|discriminate Hfrag].
   apply sfrags_check_sound in Ec.
   destruct (tlower_info (cfg_thm h) prog) as [[eff hc lo dr rm]|msg] eqn:Ei.
-  - exists eff, D', V'.
-    assert (Hshape : hc = h /\ lo = 0%nat /\ dr = false /\ rm = []).
+  - exists eff, hc, D', V'.
+    assert (Hshape : (h <= hc)%N /\ lo = 0%nat /\ dr = false /\ rm = []).
     { destruct (tlower_correct (cfg_thm h) (rw_of_prog prog) (IM_of prog) (fun _ => None) Example.env Example.nosubs Example.noxi
-                  prog D' V' (cfg_thm_fx h) (cfg_thm_params h) (cfg_thm_macs h) (cfg_thm_ssc h) csub_ext_none Him Ec) as [eff0 [Hi0 _]].
-      rewrite Ei in Hi0. rewrite cfg_thm_hstart in Hi0. injection Hi0 as _ -> -> -> ->. auto. }
-    destruct Hshape as [-> [-> [-> ->]]].
-    split; [exact Heq|].
-    intros ilsubs E csub xi cs ms fuel cs' Hcs Hrel Hfr Hce.
+                  prog D' V' (cfg_thm_fx h) (cfg_thm_params h) (cfg_thm_macs h) (cfg_thm_ssc h) csub_ext_none xi_ok_std Him Ec) as [eff0 [h0 [Hi0 [_ [Hle _]]]]].
+      rewrite Ei in Hi0. rewrite cfg_thm_hstart in Hle. injection Hi0 as _ -> -> -> ->. auto. }
+    destruct Hshape as [Hle [-> [-> ->]]].
+    split; [exact Heq|]. split; [exact Hle|].
+    intros ilsubs E csub xi cs ms fuel cs' Hcs Hxi Hrel Hfr Hce.
     destruct (tlower_correct (cfg_thm h) (rw_of_prog prog) (IM_of prog) ilsubs E csub xi prog D' V'
-                (cfg_thm_fx h) (cfg_thm_params h) (cfg_thm_macs h) (cfg_thm_ssc h) Hcs Him Ec) as [eff0 [Hi0 [_ Hsim]]].
-    rewrite Ei in Hi0. injection Hi0 as <-.
+                (cfg_thm_fx h) (cfg_thm_params h) (cfg_thm_macs h) (cfg_thm_ssc h) Hcs Hxi Him Ec) as [eff0 [h0 [Hi0 [_ [_ Hsim]]]]].
+    rewrite Ei in Hi0. injection Hi0 as <- _.
     exact (Hsim cs ms fuel cs' Hrel Hfr Hce).
   - exfalso.
     destruct (tlower_correct (cfg_thm h) (rw_of_prog prog) (IM_of prog) (fun _ => None) Example.env Example.nosubs Example.noxi
-                prog D' V' (cfg_thm_fx h) (cfg_thm_params h) (cfg_thm_macs h) (cfg_thm_ssc h) csub_ext_none Him Ec) as [eff0 [Hi0 _]].
+                prog D' V' (cfg_thm_fx h) (cfg_thm_params h) (cfg_thm_macs h) (cfg_thm_ssc h) csub_ext_none xi_ok_std Him Ec) as [eff0 [h0 [Hi0 _]]].
     rewrite Ei in Hi0. discriminate Hi0.
 Qed.
 Print Assumptions covered_correct.
@@ -1031,11 +1127,12 @@ Module CheckExamples.
       lookup "jump_target" (locals ms') = Some (VBv 32 4596%Z).
   Proof.
     intros ilsubs.
-    destruct (covered_correct 0 p_jump ltac:(vm_compute; reflexivity)) as [eff [D' [V' [Hl Hsim]]]].
+    destruct (covered_correct 0 p_jump ltac:(vm_compute; reflexivity)) as [eff [h' [D' [V' [Hl [_ Hsim]]]]]].
+    assert (Eh : h' = 0%N) by (pose proof Hl as Hl'; vm_compute in Hl'; injection Hl' as _ Eh; symmetry; exact Eh). subst h'.
     assert (Hc : exists cs', cexecs env_jump Example.nosubs Example.noxi 30 cs0 p_jump = Some cs' /\ cs_jump cs' = Some 4596%Z).
     { eexists. split; [vm_compute; reflexivity | reflexivity]. }
     destruct Hc as [cs' [Hc Hj]].
-    destruct (Hsim ilsubs env_jump Example.nosubs Example.noxi cs0 (Example.ms_of env_jump) 30%nat cs' csub_ext_none
+    destruct (Hsim ilsubs env_jump Example.nosubs Example.noxi cs0 (Example.ms_of env_jump) 30%nat cs' csub_ext_none xi_ok_std
                 (Example.srel_init _ env_jump) (Example.fresh_init _) Hc) as [ms' [Hrun Hrel']].
     exists eff, cs', ms'. repeat (split; [assumption|]).
     destruct Hrel' as [_ [_ [_ [_ [_ [Hjr _]]]]]]. unfold jrel in Hjr. rewrite Hj in Hjr. apply Hjr.
@@ -1091,6 +1188,64 @@ Module CheckExamples.
   Example covered_bitwise_compound : map (covered 0) [p_oracc; p_xacc; p_andvar] = [true; true; true].
   Proof. vm_compute. reflexivity. Qed.
 
+  (* --- compound shifts --- *)
+  (* { RxV <<= uiV; }     { int32_t t = RsV; t >>= 3; RdV = t; }     { uint8_t m = 15; m <<= RsV; PdV = m; } *)
+  Definition p_shlacc := one (SExpr (EAssign AShl (reg "R" "x") (imm "u"))).
+  Definition p_shrvar :=
+    SCons (SDecl [TS_intN true 32] "t" (Some (reg "R" "s"))) (SCons (SExpr (EAssign AShr (var "t") (num 3))) (SCons (asg (reg "R" "d") (var "t")) SNil)).
+  Definition p_shl8 :=
+    SCons (SDecl [TS_intN false 8] "m" (Some (num 15))) (SCons (SExpr (EAssign AShl (var "m") (reg "R" "s"))) (SCons (asg (reg "P" "d") (var "m")) SNil)).
+  Example covered_compound_shifts : map (covered 0) [p_shlacc; p_shrvar; p_shl8] = [true; true; true].
+  Proof. vm_compute. reflexivity. Qed.
+  Example p_shrvar_lowered :
+    tlower (cfg_insn 0) p_shrvar =
+    OK (ESeq (ESetL "t" (PReg (RIsa "R" "s" false) false))
+       (ESeq (ESetL "t" (PBin BShra (PVarL "t") (PBv true 32 3)))
+             (EWriteReg (RIsa "R" "d" false) (PVarL "t"))), 0%N).
+  Proof. vm_compute. reflexivity. Qed.
+
+  (* --- explicitly named registers --- *)
+  (* fWRITE_P0(RsV & 255):  { P0 = RsV & 255; }      fREAD_P0():  { RdV = P0; }      { RdV = P3_NEW + R31; } *)
+  Definition expl (n : string) := EOp (OExplicit n false).
+  Definition p_p0_wr := one (asg (expl "P0") (EBin Ast.BAnd (reg "R" "s") (num 255))).
+  Definition p_p0_rd := one (asg (reg "R" "d") (expl "P0")).
+  Definition p_p3new := one (asg (reg "R" "d") (EBin Ast.BAdd (EOp (OExplicit "P3" true)) (expl "R31"))).
+  (* { P1 = RsV; RdV = P1; }   the register written is read back *)
+  Definition p_p1_rw := SCons (asg (expl "P1") (reg "R" "s")) (SCons (asg (reg "R" "d") (expl "P1")) SNil).
+  Example covered_explicit : map (covered 0) [p_p0_wr; p_p0_rd; p_p3new; p_p1_rw] = [true; true; true; true].
+  Proof. vm_compute. reflexivity. Qed.
+  Example p_p1_rw_lowered :
+    tlower (cfg_insn 0) p_p1_rw =
+    OK (ESeq (EWriteReg (RExpl 1 "HEX_REG_CLASS_PRED_REGS" false) (PCast 8 (PMsb (PReg (RIsa "R" "s" false) false)) (PReg (RIsa "R" "s" false) false)))
+             (EWriteReg (RIsa "R" "d" false) (PCast 32 (PMsb (PReg (RExpl 1 "HEX_REG_CLASS_PRED_REGS" false) true))
+                                                       (PReg (RExpl 1 "HEX_REG_CLASS_PRED_REGS" false) true))), 0%N).
+  Proof. vm_compute. reflexivity. Qed.
+  Definition env_expl : cenv :=
+    mkce (fun r => if regop_eqb r (RIsa "R" "s" false) then 511%Z else 0%Z) (fun _ => 0%Z) (fun _ => 0%Z) 0%Z (fun _ => 0%Z).
+  (* RsV = 511: P1 := 255 (8 bits), read back as the signed 8 bit value -1: RdV = 0xffffffff *)
+  Example p_p1_rw_simulated : forall ilsubs,
+    exists eff cs' ms', tlower_info (cfg_insn 0) p_p1_rw = OK (mkti eff 0 0 false []) /\
+      cexecs env_expl Example.nosubs explicit_reg_info 30 cs0 p_p1_rw = Some cs' /\
+      runs (rw_of_prog p_p1_rw) ilsubs eff (Example.ms_of env_expl) ms' /\
+      rnew ms' = [(RIsa "R" "d" false, 4294967295%Z); (RExpl 1 "HEX_REG_CLASS_PRED_REGS" false, 255%Z)].
+  Proof.
+    intros ilsubs.
+    destruct (covered_correct 0 p_p1_rw ltac:(vm_compute; reflexivity)) as [eff [h' [D' [V' [Hl [_ Hsim]]]]]].
+    assert (Eh : h' = 0%N) by (pose proof Hl as Hl'; vm_compute in Hl'; injection Hl' as _ Eh; symmetry; exact Eh). subst h'.
+    assert (Hc : exists cs', cexecs env_expl Example.nosubs explicit_reg_info 30 cs0 p_p1_rw = Some cs' /\
+                             cs_regw cs' = [(RIsa "R" "d" false, 4294967295%Z); (RExpl 1 "HEX_REG_CLASS_PRED_REGS" false, 255%Z)]).
+    { eexists. split; [vm_compute; reflexivity | reflexivity]. }
+    destruct Hc as [cs' [Hc Hr]].
+    destruct (Hsim ilsubs env_expl Example.nosubs explicit_reg_info cs0 (Example.ms_of env_expl) 30%nat cs' csub_ext_none xi_ok_std (Example.srel_init _ env_expl) (Example.fresh_init _) Hc)
+      as [ms' [Hrun Hrel']].
+    exists eff, cs', ms'. repeat (split; [assumption|]).
+    destruct Hrel' as [[_ [Hregw _]] _]. congruence.
+  Qed.
+  (* not covered: registers outside ExprCorrect.expl_names (R0 ...), compound assignment to an explicit register *)
+  Example explicit_not_covered :
+    map (covered 0) [one (asg (reg "R" "d") (expl "R0")); one (SExpr (EAssign AOr (expl "P0") (reg "R" "s")))] = [false; false].
+  Proof. vm_compute. reflexivity. Qed.
+
   (* --- register aliases --- *)
   Definition alias (n : string) := EOp (OAlias n false).
   (* { RdV = HEX_REG_ALIAS_GP + uiV; } *)
@@ -1121,12 +1276,13 @@ Module CheckExamples.
       rnew ms' = [(RIsa "R" "d" false, 104%Z); (RAlias "HEX_REG_ALIAS_LR" false, 104%Z); (RIsa "R" "e" false, 100%Z)].
   Proof.
     intros ilsubs.
-    destruct (covered_correct 0 p_alias_rw ltac:(vm_compute; reflexivity)) as [eff [D' [V' [Hl Hsim]]]].
+    destruct (covered_correct 0 p_alias_rw ltac:(vm_compute; reflexivity)) as [eff [h' [D' [V' [Hl [_ Hsim]]]]]].
+    assert (Eh : h' = 0%N) by (pose proof Hl as Hl'; vm_compute in Hl'; injection Hl' as _ Eh; symmetry; exact Eh). subst h'.
     assert (Hc : exists cs', cexecs env_alias Example.nosubs Example.noxi 30 cs0 p_alias_rw = Some cs' /\
                              cs_regw cs' = [(RIsa "R" "d" false, 104%Z); (RAlias "HEX_REG_ALIAS_LR" false, 104%Z); (RIsa "R" "e" false, 100%Z)]).
     { eexists. split; [vm_compute; reflexivity | reflexivity]. }
     destruct Hc as [cs' [Hc Hr]].
-    destruct (Hsim ilsubs env_alias Example.nosubs Example.noxi cs0 (Example.ms_of env_alias) 30%nat cs' csub_ext_none (Example.srel_init _ env_alias) (Example.fresh_init _) Hc)
+    destruct (Hsim ilsubs env_alias Example.nosubs Example.noxi cs0 (Example.ms_of env_alias) 30%nat cs' csub_ext_none xi_ok_std (Example.srel_init _ env_alias) (Example.fresh_init _) Hc)
       as [ms' [Hrun Hrel']].
     exists eff, cs', ms'. repeat (split; [assumption|]).
     destruct Hrel' as [[_ [Hregw _]] _]. congruence.
@@ -1146,9 +1302,13 @@ Module CheckExamples.
   (* one vm_compute gives the simulation theorem for the predicated load, for the real configuration *)
   Example p_pload_ea_simulated :
     exists eff D' V', tlower_info (cfg_insn 0) p_pload_ea = OK (mkti eff 0 0 false []) /\
-      forall ilsubs E csub xi cs ms fuel cs', csub_ext csub -> srel (IM_of p_pload_ea) E [] [] cs ms -> imm_fresh (IM_of p_pload_ea) cs -> cexecs E csub xi fuel cs p_pload_ea = Some cs' ->
+      forall ilsubs E csub xi cs ms fuel cs', csub_ext csub -> xi_ok xi -> srel (IM_of p_pload_ea) E [] [] cs ms -> imm_fresh (IM_of p_pload_ea) cs -> cexecs E csub xi fuel cs p_pload_ea = Some cs' ->
         exists ms', runs (rw_of_prog p_pload_ea) ilsubs eff ms ms' /\ srel (IM_of p_pload_ea) E D' V' cs' ms'.
-  Proof. apply covered_correct. vm_compute. reflexivity. Qed.
+  Proof.
+    destruct (covered_correct 0 p_pload_ea ltac:(vm_compute; reflexivity)) as [eff [h' [D' [V' [Hl [_ Hsim]]]]]].
+    assert (Eh : h' = 0%N) by (pose proof Hl as Hl'; vm_compute in Hl'; injection Hl' as _ Eh; symmetry; exact Eh). subst h'.
+    exists eff, D', V'. split; assumption.
+  Qed.
 
   (* the theorem is not vacuous for these constructs: a behaviour with a load, a macro and an (untaken) cancel_slot, EXECUTED.
         EA = RsV + 4;  RdV = (size2s_t) mem_load_s16(EA);  RxV = extract32(RdV, 4, 8);  if (RsV == 0) { cancel_slot; }
@@ -1168,12 +1328,13 @@ Module CheckExamples.
       rnew ms' = [(RIsa "R" "x" false, 35%Z); (RIsa "R" "d" false, 4294963764%Z)].
   Proof.
     intros ilsubs.
-    destruct (covered_correct 0 p_run ltac:(vm_compute; reflexivity)) as [eff [D' [V' [Hl Hsim]]]].
+    destruct (covered_correct 0 p_run ltac:(vm_compute; reflexivity)) as [eff [h' [D' [V' [Hl [_ Hsim]]]]]].
+    assert (Eh : h' = 0%N) by (pose proof Hl as Hl'; vm_compute in Hl'; injection Hl' as _ Eh; symmetry; exact Eh). subst h'.
     assert (Hc : exists cs', cexecs env_run Example.nosubs Example.noxi 30 cs0 p_run = Some cs' /\
                              cs_regw cs' = [(RIsa "R" "x" false, 35%Z); (RIsa "R" "d" false, 4294963764%Z)]).
     { eexists. split; [vm_compute; reflexivity | reflexivity]. }
     destruct Hc as [cs' [Hc Hr]].
-    destruct (Hsim ilsubs env_run Example.nosubs Example.noxi cs0 (Example.ms_of env_run) 30%nat cs' csub_ext_none (Example.srel_init _ env_run) (Example.fresh_init _) Hc)
+    destruct (Hsim ilsubs env_run Example.nosubs Example.noxi cs0 (Example.ms_of env_run) 30%nat cs' csub_ext_none xi_ok_std (Example.srel_init _ env_run) (Example.fresh_init _) Hc)
       as [ms' [Hrun Hrel']].
     exists eff, cs', ms'. repeat (split; [assumption|]).
     destruct Hrel' as [[_ [Hregw _]] _]. congruence.
@@ -1228,20 +1389,82 @@ Module CheckExamples.
   (* one vm_compute gives the simulation theorem for the real configuration *)
   Example p_mac_simulated :
     exists eff D' V', tlower_info (cfg_insn 0) p_mac = OK (mkti eff 0 0 false []) /\
-      forall ilsubs E csub xi cs ms fuel cs', csub_ext csub -> srel (IM_of p_mac) E [] [] cs ms -> imm_fresh (IM_of p_mac) cs -> cexecs E csub xi fuel cs p_mac = Some cs' ->
+      forall ilsubs E csub xi cs ms fuel cs', csub_ext csub -> xi_ok xi -> srel (IM_of p_mac) E [] [] cs ms -> imm_fresh (IM_of p_mac) cs -> cexecs E csub xi fuel cs p_mac = Some cs' ->
         exists ms', runs (rw_of_prog p_mac) ilsubs eff ms ms' /\ srel (IM_of p_mac) E D' V' cs' ms'.
-  Proof. apply covered_correct. vm_compute. reflexivity. Qed.
+  Proof.
+    destruct (covered_correct 0 p_mac ltac:(vm_compute; reflexivity)) as [eff [h' [D' [V' [Hl [_ Hsim]]]]]].
+    assert (Eh : h' = 0%N) by (pose proof Hl as Hl'; vm_compute in Hl'; injection Hl' as _ Eh; symmetry; exact Eh). subst h'.
+    exists eff, D', V'. split; assumption.
+  Qed.
 
   (* --- not covered --- *)
-  (* { int i; ... }  a loop:  int32_t i = 0; for (i = 0; i < 2; i++) { RdV = RsV; }
-     NOT covered: [sfrag] has no constructor for SFor (nor SWhile / SDo): sfrag_check returns None at the loop. *)
+  (* --- for loops --- *)
+  (* int32_t i = 0; for (i = 0; i < 2; i++) { RdV = RsV; }
+     COVERED since sf_for: the loop variable is a 32 bit local, the step is i++ (or i--), the body has no loop.
+     The compiler turns i++ into a "hybrid": the temporary h_tmp0 keeps the old value of i, the increment is sequenced
+     after the body; the final hybrid counter is 1 (covered_correct gives h <= h'). *)
   Definition p_loop :=
     SCons (SDecl [TS_intN true 32] "i" (Some (num 0)))
    (SCons (SFor (asg (var "i") (num 0)) (SExpr (EBin Ast.BLt (var "i") (num 2))) (Some (EPost true (var "i")))
                 (SBlock (one (asg (reg "R" "d") (reg "R" "s"))))) SNil).
-  Example loop_not_covered :
-    covered 0 p_loop = false /\ sfrags_check (rw_of_prog p_loop) (IM_of p_loop) [] [] p_loop = None.
-  Proof. split; vm_compute; reflexivity. Qed.
+  (* for (i = 0; i < 4; i++) { RxV += i; }       (i implicitly declared by its first assignment, as in the shipped vector helpers)
+     int j; for (j = 3; j > 0; j--) { if (j > 1) { RxV |= j; } }      (declaration without initialiser; a decreasing loop) *)
+  Definition p_loop_acc :=
+    one (SFor (asg (var "i") (num 0)) (SExpr (EBin Ast.BLt (var "i") (num 4))) (Some (EPost true (var "i")))
+              (SBlock (one (SExpr (EAssign AAdd (reg "R" "x") (var "i")))))).
+  Definition p_loop_dec :=
+    SCons (SDecl [TS_int] "j" None)
+   (SCons (SFor (asg (var "j") (num 3)) (SExpr (EBin Ast.BGt (var "j") (num 0))) (Some (EPost false (var "j")))
+                (SBlock (one (SIf (EBin Ast.BGt (var "j") (num 1)) (SBlock (one (SExpr (EAssign AOr (reg "R" "x") (var "j"))))) None)))) SNil).
+  (* two loops in a row: each gets its own temporary *)
+  Definition p_loop_two :=
+    SCons (SFor (asg (var "i") (num 0)) (SExpr (EBin Ast.BLt (var "i") (num 2))) (Some (EPost true (var "i")))
+                (SBlock (one (SExpr (EAssign AAdd (reg "R" "x") (num 1))))))
+   (SCons (SFor (asg (var "i") (num 0)) (SExpr (EBin Ast.BLt (var "i") (num 2))) (Some (EPost true (var "i")))
+                (SBlock (one (SExpr (EAssign AAdd (reg "R" "x") (num 2)))))) SNil).
+  Example covered_loops : map (covered 0) [p_loop; p_loop_acc; p_loop_dec; p_loop_two] = [true; true; true; true].
+  Proof. vm_compute. reflexivity. Qed.
+  Example p_loop_acc_lowered :
+    tlower_info (cfg_insn 0) p_loop_acc =
+    OK (mkti (ESeq (ESetL "i" (PCast 32 (PBool false) (PBv true 32 0)))
+                (ERepeat (PCmp CUlt (PVarL "i") (PCast 32 (PBool false) (PBv true 32 4)))
+                   (ESeq (EWriteReg (RIsa "R" "x" false)
+                            (PBin RzIL.BAdd (PReg (RIsa "R" "x" false) false) (PCast 32 (PBool false) (PVarL "i"))))
+                         (ESeq (ESetL "h_tmp0" (PVarL "i")) (ESetL "i" (PIncDec true (PVarL "i") 32))))))
+             1 0 false []).
+  Proof. vm_compute. reflexivity. Qed.
+  (* the loop executed on both sides: RxV = 10 initially, the C run ends with RxV = 10 + 0 + 1 + 2 + 3 = 16, and so does the IL run *)
+  Definition env_loop : cenv :=
+    mkce (fun r => if regop_eqb r (RIsa "R" "x" false) then 10%Z else 0%Z) (fun _ => 0%Z) (fun _ => 0%Z) 0%Z (fun _ => 0%Z).
+  Example p_loop_acc_simulated : forall ilsubs,
+    exists eff cs' ms', tlower_info (cfg_insn 0) p_loop_acc = OK (mkti eff 1 0 false []) /\
+      cexecs env_loop Example.nosubs Example.noxi 30 cs0 p_loop_acc = Some cs' /\
+      runs (rw_of_prog p_loop_acc) ilsubs eff (Example.ms_of env_loop) ms' /\
+      lookup_reg (RIsa "R" "x" false) (rnew ms') = Some 16%Z.
+  Proof.
+    intros ilsubs.
+    destruct (covered_correct 0 p_loop_acc ltac:(vm_compute; reflexivity)) as [eff [h' [D' [V' [Hl [_ Hsim]]]]]].
+    assert (Eh : h' = 1%N) by (pose proof Hl as Hl'; vm_compute in Hl'; injection Hl' as _ Eh; symmetry; exact Eh). subst h'.
+    assert (Hc : exists cs', cexecs env_loop Example.nosubs Example.noxi 30 cs0 p_loop_acc = Some cs' /\
+                             lookup_reg (RIsa "R" "x" false) (cs_regw cs') = Some 16%Z).
+    { eexists. split; [vm_compute; reflexivity | reflexivity]. }
+    destruct Hc as [cs' [Hc Hr]].
+    destruct (Hsim ilsubs env_loop Example.nosubs Example.noxi cs0 (Example.ms_of env_loop) 30%nat cs' csub_ext_none xi_ok_std (Example.srel_init _ env_loop) (Example.fresh_init _) Hc)
+      as [ms' [Hrun Hrel']].
+    exists eff, cs', ms'. repeat (split; [assumption|]).
+    destruct Hrel' as [[_ [Hregw _]] _]. rewrite <- Hregw. exact Hr.
+  Qed.
+  (* NOT covered: a loop inside a loop body, a loop variable that is not 32 bits wide, while loops *)
+  Definition p_loop_nested :=
+    one (SFor (asg (var "i") (num 0)) (SExpr (EBin Ast.BLt (var "i") (num 2))) (Some (EPost true (var "i")))
+              (SBlock (one (SFor (asg (var "j") (num 0)) (SExpr (EBin Ast.BLt (var "j") (num 2))) (Some (EPost true (var "j")))
+                                 (SBlock (one (SExpr (EAssign AAdd (reg "R" "x") (num 1))))))))).
+  Definition p_loop_u8 :=
+    SCons (SDecl [TS_intN false 8] "c" (Some (num 0)))
+   (SCons (SFor (asg (var "c") (num 0)) (SExpr (EBin Ast.BLt (var "c") (num 2))) (Some (EPost true (var "c")))
+                (SBlock (one (asg (reg "R" "d") (reg "R" "s"))))) SNil).
+  Example loops_not_covered : map (covered 0) [p_loop_nested; p_loop_u8] = [false; false].
+  Proof. vm_compute. reflexivity. Qed.
 
   (* { RdV = RsV / RtV; }
      NOT covered: division is neither [is_folding_op] nor [is_plain_op] (pf_bin): pfrag_check is false on the
